@@ -333,6 +333,8 @@ pub fn minimise(args: &Args, full: &Spec, differing: usize) -> Minimised {
         Box::new(|p| p.rss_kib = crate::sim_entropy::REF_RSS_KIB),
         Box::new(|p| p.repeat = 0),
         Box::new(|p| p.prior_edit = 0),
+        Box::new(|p| p.prior_crash = 0),
+        Box::new(|p| p.overlap = 0),
         Box::new(|p| p.wait_ppm = crate::sim_entropy::REF_WAIT_PPM),
         Box::new(|p| {
             p.read_chunk = 0;
